@@ -64,7 +64,9 @@ def make_classes(point: t.Sequence[t.Any], flags: t.Sequence[t.Sequence[bool]], 
 
     def body(field_fn: t.Callable[..., t.Any], stdlib: bool) -> t.Dict[str, t.Any]:
         ns: t.Dict[str, t.Any] = {'__annotations__': {n: types[n] for n in names}}
-        for (n, (cmp_, hsh, rpr)) in zip(names, flags):
+        for (n, fl) in zip(names, flags):
+            (cmp_, hsh, rpr) = fl[:3]
+            excl = (len(fl) > 3 and bool(fl[3])) and not stdlib
             kw: t.Dict[str, t.Any] = {}
             if not cmp_:
                 kw['compare'] = False
@@ -72,6 +74,8 @@ def make_classes(point: t.Sequence[t.Any], flags: t.Sequence[t.Sequence[bool]], 
                 kw['hash'] = hsh
             if not rpr:
                 kw['repr'] = False
+            if excl:
+                kw['exclude'] = True       # (pane only; exclusion concerns serialisation, not value semantics)
             if n == 'd':
                 kw['default_factory'] = list
             if kw:
@@ -132,7 +136,8 @@ inst_vals = st.tuples(st.integers(0, 2), st.sampled_from(['', 'a', 'b']), st.lis
 @st.composite
 def cases(draw) -> t.Any:
     point = list(draw(st.sampled_from(CUBE)))
-    flags = [[draw(st.booleans()) or draw(st.booleans()), draw(st.sampled_from([None, None, True, False])), draw(st.booleans()) or draw(st.booleans())] for _ in range(4)]
+    flags = [[draw(st.booleans()) or draw(st.booleans()), draw(st.sampled_from([None, None, True, False])), draw(st.booleans()) or draw(st.booleans()),
+              draw(st.integers(0, 3)) == 3] for _ in range(4)]
     insts = [list(draw(inst_vals)) for _ in range(3)]
     return [point, flags, insts]
 
@@ -148,8 +153,10 @@ def check(case: t.Any, ctx: Ctx) -> None:
     (eq, order, frozen, unsafe_hash, hash_kind, user_eq) = point
     flags = [tuple(f) for f in flags]
     default_point = (eq, order, frozen, unsafe_hash, hash_kind, user_eq) == (True, True, True, False, 'absent', False)
+    if any(len(f) > 3 and f[3] for f in flags):
+        ctx.label('has-excluded-field')
     ctx.label(f"eq={eq},order={order},frozen={frozen},unsafe_hash={unsafe_hash},hash={hash_kind},user_eq={user_eq}")
-    ctx.nontrivial(not default_point or any(f != (True, None, True) for f in flags))
+    ctx.nontrivial(not default_point or any(tuple(f[:3]) != (True, None, True) or (len(f) > 3 and f[3]) for f in flags))
     ident = f"options eq={eq} order={order} frozen={frozen} unsafe_hash={unsafe_hash} __hash__={hash_kind} user __eq__={user_eq}; field flags (compare, hash, repr) a,b,c,d = {flags}"
 
     # ---- hash: differential against the stdlib -----------------------------------------------
@@ -171,6 +178,7 @@ def check(case: t.Any, ctx: Ctx) -> None:
         return
     xs = [P(a=a, b=b, c=tuple(c)) for (a, b, c) in insts]
     cmp_fields = [n for (n, f) in zip('abc', flags) if f[0]]
+    flags3 = [tuple(f[:3]) for f in flags]
 
     def key(x: t.Any) -> t.Tuple[t.Any, ...]:
         return tuple(getattr(x, n) for n in cmp_fields)
@@ -209,7 +217,7 @@ def check(case: t.Any, ctx: Ctx) -> None:
                 ctx.fail('eq-implies-hash', cat_p, f"{ident}; {x!r} == {y!r} but their hashes differ")
                 return
     if cat_p == 'fields' and hash_kind == 'absent':
-        hash_fields = [n for (n, f) in zip('abc', flags) if (f[1] if f[1] is not None else f[0])]
+        hash_fields = [n for (n, f) in zip('abc', flags3) if (f[1] if f[1] is not None else f[0])]
         for (x, y) in itertools.product(xs, xs):
             same_h = tuple(getattr(x, n) for n in hash_fields) == tuple(getattr(y, n) for n in hash_fields)
             if same_h and hash(x) != hash(y):
@@ -246,8 +254,13 @@ def check(case: t.Any, ctx: Ctx) -> None:
             if k != 'ok':
                 ctx.fail('copy', f"{what}:{type(cp).__name__}", f"{ident}; {what} of {src!r} raised {type(cp).__name__}: {str(cp)[:120]}")
                 return
-            if type(cp) is not type(src) or any(getattr(cp, n) != getattr(src, n) for n in 'abcd'):
-                ctx.fail('copy', what, f"{ident}; {what} of {src!r} gave {cp!r}")
+            try:
+                differs = type(cp) is not type(src) or any(getattr(cp, n) != getattr(src, n) for n in 'abcd')
+                shown = repr(cp)
+            except AttributeError as e:
+                (differs, shown) = (True, f"an instance with a missing field ({e})")
+            if differs:
+                ctx.fail('copy', what, f"{ident}; {what} of {src!r} gave {shown}")
                 return
             if set(cp.__pane_set__) != set(src.__pane_set__):
                 ctx.fail('copy', f"{what}:set-record", f"{ident}; {what} of {src!r} has set-field record {sorted(cp.__pane_set__)}, original {sorted(src.__pane_set__)}")
@@ -270,7 +283,7 @@ def check(case: t.Any, ctx: Ctx) -> None:
         return
 
     # ---- repr ---------------------------------------------------------------------------------------
-    want_r = "PaneCls(" + ", ".join(f"{n}={getattr(x, n)!r}" for (n, f) in zip('abcd', flags) if f[2]) + ")"
+    want_r = "PaneCls(" + ", ".join(f"{n}={getattr(x, n)!r}" for (n, f) in zip('abcd', flags3) if f[2]) + ")"
     ctx.evaluated()
     if repr(x) != want_r:
         ctx.fail('repr', 'repr-fields', f"{ident}; repr is {repr(x)!r}, the repr-fields in order give {want_r!r}")
